@@ -11,13 +11,14 @@ class Facts:
         self.features = d["features"]
         self.bodies = {b["def"]: b for b in d["bodies"]}
         self.promoted = {(b["def"], b["promoted"]): b for b in d["promoted"]}
+        self.consts = {b["def"]: b for b in d.get("consts", []) if not b["def"].endswith("::_")}
         self.adts = {a["def"]: a for a in d["adts"]}
         self.traits = {t["def"]: t for t in d["traits"]}
         self.impls = d["impls"]
         self.statics = {s["def"]: s for s in d["statics"]}
         self.aliases = {a["def"]: a for a in d["aliases"]}
         self.ext_enums = {e["def"]: e for e in d.get("ext_enums", [])}
-        for b in list(self.bodies.values()) + list(self.promoted.values()):
+        for b in list(self.bodies.values()) + list(self.promoted.values()) + list(self.consts.values()):
             for i, bb in enumerate(b["blocks"]):
                 bb["idx"] = i
 
